@@ -58,6 +58,10 @@ def make_data(kind, split=0):
 def make_ont(kind):
     if kind is None:
         return None
+    if kind == "empty Graph":
+        return rdflib.Graph()      # an ontology document without any triple is still an ontology argument
+    if kind == "empty Dataset":
+        return rdflib.Dataset()
     if kind == "Graph":
         g = rdflib.Graph()
         for t in ONT:
@@ -261,10 +265,10 @@ def main(tier, seed, replay=None):
     import pyshacl
     import pyshacl.validator as VM
     import pyshacl.rule_expand_runner as RM
-    table = list(itertools.product(["Graph", "Dataset", "ConjunctiveGraph"], [None, "Graph", "Dataset"], ["none", "rdfs", "owlrl", "both"],
+    table = list(itertools.product(["Graph", "Dataset", "ConjunctiveGraph"], [None, "Graph", "Dataset", "empty Graph", "empty Dataset"], ["none", "rdfs", "owlrl", "both"],
                                    [False, True], [False, True], ["validate", "shacl_rules"], [None, 0, 1, 2, 3]))
     if tier == "quick":
-        table = rng.sample(table, 260)
+        table = rng.sample(table, 360)
     snap_viol, runs, changed_inplace = [], 0, 0
     for cont, ontk, inf, adv, iterate, api, fault in table:
         if api == "shacl_rules" and not adv:
@@ -303,7 +307,7 @@ def main(tier, seed, replay=None):
     cov = F.proof_coverage(ob, ["translator/t1.py + translator/py2mini.py (fail-closed Python-ast -> PyMini)", "coq/Mini/PyMini.v semantics and callee summaries (clone_graph, inoculate, inoculate_dataset, _run_pre_inference, apply_rules, apply_functions)"])
     cov.update({
         "evaluations": len(bodies) + runs, "distinct_nontrivial": len({tuple(m[3]) for m in meta if m[3]}) + runs,
-        "rule": "(1) Tie A: for sampled valuations of the 1280-element domain x {validate, shacl_rules} x {no fault, fault at effect 0-3} the real Validator/RuleExpandRunner runs with recording wrappers around the white-listed callees and the recorded Clone/Write/Reg/Raised trace must equal the trace of the generated PyMini program; (2) the property on the real code: {Graph, Dataset, ConjunctiveGraph} x {no ontology, Graph, Dataset} x {none, rdfs, owlrl, both} x advanced x iterate_rules x {validate, shacl_rules} x {normal return, failure injected after the k-th effect}, quad-level snapshot of the caller's objects before/after; non-trivial = a run in which a writer ran",
+        "rule": "(1) Tie A: for sampled valuations of the 1280-element domain x {validate, shacl_rules} x {no fault, fault at effect 0-3} the real Validator/RuleExpandRunner runs with recording wrappers around the white-listed callees and the recorded Clone/Write/Reg/Raised trace must equal the trace of the generated PyMini program; (2) the property on the real code: {Graph, Dataset, ConjunctiveGraph} x {no ontology, Graph, Dataset, empty Graph, empty Dataset} x {none, rdfs, owlrl, both} x advanced x iterate_rules x {validate, shacl_rules} x {normal return, failure injected after the k-th effect}, quad-level snapshot of the caller's objects before/after; non-trivial = a run in which a writer ran",
         "distribution": {"tie_a_traces": len(bodies), "tie_a_disagreements": len(failed), "snapshot_runs": runs, "snapshot_violations": len(snap_viol),
                          "distinct_traces": len({tuple(m[3]) for m in meta})},
         "samples": [{"api": m[0], "valuation": m[1], "fault": m[2], "recorded": m[3]} for m in meta[:3]],
